@@ -50,6 +50,26 @@ def _assigns(body, target):
             _u(s.targets[0]) == target]
 
 
+def _check_no_other_writes(fn, counts):
+    """Anywhere in the function (also nested): no augmented assignment to the table variables and
+    exactly the expected number of plain assignments, so that an added `rmax[...] *= k` or a second
+    assignment in another block cannot slip through."""
+    seen = dict.fromkeys(counts, 0)
+    for node in ast.walk(fn):
+        if isinstance(node, (ast.AugAssign, ast.AnnAssign)):
+            base = _u(node.target).split('[')[0]
+            if base in counts:
+                raise ExtractionError('augmented/annotated assignment to {}: {}'.format(base, _u(node)[:80]))
+        elif isinstance(node, ast.Assign):
+            for tgt in node.targets:
+                for el in (tgt.elts if isinstance(tgt, (ast.Tuple, ast.List)) else [tgt]):
+                    base = _u(el).split('[')[0]
+                    if base in counts:
+                        seen[base] += 1
+    if seen != counts:
+        raise ExtractionError('unexpected number of assignments {} (expected {})'.format(seen, counts))
+
+
 def _eval_chain(stmts, target, env, value_fn):
     """Execute a list of statements made of if/elif/else and assignments to `target`."""
     val = None
@@ -97,6 +117,8 @@ def _rg_value(node):
 
 def extract_recip(tree):
     fn = _func(tree, 'reciprocal_grid')
+    _check_no_other_writes(fn, {'rmin': 3, 'rmax': 6, 'rshape': 2, 'half_rstride': 1,
+                                'last_odd': 1, 'last_shifted': 1})
     for tgt, normal in RG_NORMAL.items():
         a = _assigns(fn.body, tgt)
         if len(a) != 1 or _u(a[0].value) != normal:
@@ -151,6 +173,8 @@ def _lin(node):
 
 def extract_freqs(tree):
     fn = _func(tree, 'dft_postprocess_data')
+    _check_no_other_writes(fn, {'fmin': 1, 'fmax': 5, 'freqs': 1, 'halfcomplex': 1, 'odd': 1,
+                                'len_dft': 1, 'len_orig': 1})
     loops = [s for s in fn.body if isinstance(s, ast.For) and 'zip(axes, shift_list, interp)' in _u(s.iter)]
     if len(loops) != 1:
         raise ExtractionError('kernel loop not found')
